@@ -150,7 +150,7 @@ def impl_parse(s):
         int(bool(r.any_unused_tokens)), int(dep))
 
 def dump_delta(d):
-    if d is None:
+    if d is None or d is False:          # `False`: the placeholder tzstr passes to tzrange.__init__ and never replaces
         return "-"
     wd = "-" if d.weekday is None else "%d/%d" % (d.weekday.weekday, d.weekday.n or 0)
     total = ((d.days * 24 + d.hours) * 60 + d.minutes) * 60 + d.seconds
@@ -195,7 +195,7 @@ def mutate(rng, s):
         return s + rng.choice([",M3.2.0", "/2", ",", "3600", ",J100,J200"])
     return "".join(rng.choice(ALPH) for _ in range(rng.randint(0, 6)))
 
-FIXED_STRINGS = ["EST5", "EST+5", "EST-5:30", "AAA0", "EST", "UTC", "GMT", "GMT+3", "GMT-3", "UTC+3", "UTC-11", "UTC+5:30",
+FIXED_STRINGS = ["EST5EDT,J0/0,J300", "EST5EDT,J0/0,J0/0", "EST5EDT,J0,J300", "EST5EDT,0/0,300", "EST5", "EST+5", "EST-5:30", "AAA0", "EST", "UTC", "GMT", "GMT+3", "GMT-3", "UTC+3", "UTC-11", "UTC+5:30",
                  "GMT0", "BRST+3", "EST0500", "EST05", "X-14", "EST5EDT", "EST5EDT4", "CET-1CEST", "NZST-12NZDT",
                  "EST5EDT,M3.2.0,M11.1.0", "EST5EDT,M3.2.0/2,M11.1.0/2", "EST5EDT4,M3.2.0/02:00,M11.1.0/02:00:00",
                  "EST5EDT,J60,J300", "EST5EDT,59,299", "EST5EDT,J60/0,J300/23", "AEST-10AEDT,M10.1.0,M4.1.0/3",
